@@ -11,6 +11,13 @@ state the real object is in (e.g. `io` with no greenlet blocked in an I/O call) 
 every sub-sequence of a script is a script; what was applied is what is sent to the model, and
 the model's `wf` flag cross-checks that it considers the same operations applicable.
 
+serial `timeout block` / `req (past block)` / `reconn ok|refuse`: the re-connect the time-out handler of the serial
+transport makes is a blocking call like the others.  With `block` the connect does not conclude in the operation
+in which the deadline passes (stepnet `next_connect = 'block'`: the transaction greenlet yields inside the real
+`ScalesSocket.open()`), every other operation can be applied in that window (a request, Open(), Close(), looks),
+and `reconn` lets the connect conclude — accepted or refused.  The last field of a serial observation says whether
+the real ScalesSocket holds a connected handle.
+
 mux `burst`: the receive loop's pending read and the reads that follow it return without the loop
 yielding (stepnet `release_burst`): a frame — or several — and the end of stream / read error right
 behind it.  The `_ProcessReply` greenlets of those frames, which `_Shutdown` does not kill, then run
@@ -60,7 +67,7 @@ TRUSTED = ['step-controlled fake socket harness/stepnet.py standing for ScalesSo
            'already buffered returns without yielding, like a socket read that finds data)',
            'logging sink stack (subclass of ClientMessageSinkStack) counting every response it is handed',
            'tags handed out by the tag pool are read from the run and passed to the model (C11 is about them)',
-           'a connect in progress is a greenlet blocked in the fake OS socket\'s connect() (stepnet next_connect = '
+           'a connect in progress (mux Open(), serial re-connect after a time-out) is a greenlet blocked in the fake OS socket\'s connect() (stepnet next_connect = '
            '\'block\'); a request issued while the open is pending runs in a greenlet spawned by the harness']
 ASSUMPTIONS = ['gevent is cooperative: between two blocking calls a transport method is atomic',
                'mux: Open() is called once, no Deadline event on mux requests (C12), tags of in-flight requests and the '
@@ -74,7 +81,10 @@ ASSUMPTIONS = ['gevent is cooperative: between two blocking calls a transport me
                'callers blocked on the open result resume last in the drain in which the result is set (gevent '
                'notifies the waiters of an AsyncResult from a callback scheduled when it is set), oldest first']
 RULE = ('scripts = corpus + seeded random operation lists + exhaustive enumeration of fault position x fault kind x '
-        'requests in flight (serial 0-1, mux 0-3) through the third transaction, for the mux transport also with the '
+        'requests in flight (serial 0-1, mux 0-3) through the third transaction, for the serial transport also with the '
+        're-connect of the time-out handler as a yield point (the connect blocks; nothing / a look / requests of every kind / '
+        'Open() / stray I/O outcomes arrive in the window; the re-connect is accepted, refused, or cut short by Close()), '
+        'for the mux transport also with the '
         'read fault (error / EOF, in a header / a body) arriving in one burst right behind 1-2 frames (reply of an '
         'in-flight request, Rping, junk) that are read but not yet dispatched, with a failing read / failing write / '
         'Close() landing at each position inside the drain that reads such frames (before the reads are taken, before '
@@ -190,7 +200,8 @@ class Serial(Base):
         for fr in w:
             ok = len(fr) >= 4 and unpack('!i', fr[:4])[0] == len(fr) - 4 and fr[4:7] == b'req'
             sent.append(int(fr[7:]) if ok else 999999)
-        return vfmt([STATE.get(self.sink.state, 'other'), self.sink._processing is not None, f, d, sent, c])
+        return vfmt([STATE.get(self.sink.state, 'other'), self.sink._processing is not None, f, d, sent, c,
+                     self.sock.handle is not None])
 
     def apply(self, op):
         """-> op text or None if not applicable"""
@@ -220,8 +231,15 @@ class Serial(Base):
             busy = self.sink._processing is not None
             if busy:
                 self.tags.add('concurrent-request')
+            if self.sock.pend_connect is not None:
+                self.tags.add('request-during-reconnect')
+                if STATE.get(self.sink.state) == 'open' and not busy:
+                    self.tags.add('request-during-reconnect-while-open-idle')
             self.sink.AsyncProcessRequest(self.LogStack(rid, self.dels), m, BytesIO(b'req%d' % rid), {})
             rt.drain()
+            self.sock.next_connect = 'ok'
+            if not busy and self.sock.pend_connect is not None and dl not in ('none', 'future'):
+                self.tags.add('reconnect-blocks')
             if not busy and self.sink._processing is not None:
                 body = b'reply-%d' % rid
                 self.cur = [rid, dl == 'future', pack('!i', len(body)) + body]
@@ -252,8 +270,21 @@ class Serial(Base):
             self.tags.add('timeout-silence-at-%s' % ('write' if p.kind == 'write' else
                                                      'read4' if len(self.cur[2]) > p.arg else 'readN'))
             rt.advance(1.5)
+            self.sock.next_connect = 'ok'
+            if self.sock.pend_connect is not None:
+                self.tags.add('reconnect-blocks')
             return 'timeout %s' % op[1]
+        if kind == 'reconn':
+            # the re-connect the time-out handler is blocked in concludes
+            if self.sock.pend_connect is None:
+                return None
+            self.tags.add('reconnect-concludes-' + op[1])
+            self.sock.release_connect(op[1])
+            rt.drain()
+            return 'reconn %s' % op[1]
         if kind == 'close':
+            if self.sock.pend_connect is not None:
+                self.tags.add('close-during-reconnect')
             if self.sink._processing is not None:
                 self.tags.add('close-in-flight')
                 # the killed transaction's gevent.Timeout stays armed in the real code; the harness
@@ -706,7 +737,7 @@ def run_script(script):
     try:
         drv.sink.Close()
         rt.drain()
-        if script['t'] == 'muxt' and drv.sock.pend_connect is not None:
+        if drv.sock.pend_connect is not None:
             drv.sock.release_connect('refuse')
             rt.drain()
     except Exception:
@@ -720,20 +751,50 @@ def run_script(script):
 
 # ------------------------------------------------------------------ generation
 def _gen_serial(rng, n):
+    """random operation lists; `blk` guesses that a re-connect is in progress (a time-out or an expired request with
+    a re-connect that takes time was just generated) and then favours what matters in that window: requests, the
+    re-connect concluding either way, Close(), looks"""
     ops = []
     if rng.random() < 0.9:
         ops.append(['open', 'ok' if rng.random() < 0.85 else 'refuse'])
     p_fault = rng.choice([0.0, 0.05, 0.15, 0.3])
+    p_block = rng.choice([0.0, 0.3, 0.6])
+    blk = False
+
+    def rc():
+        return 'block' if rng.random() < p_block else rng.choice(['ok', 'ok', 'refuse'])
     for _ in range(n):
+        if blk:
+            x = rng.random()
+            if x < 0.40:
+                ops.append(['reconn', 'ok' if rng.random() < 0.65 else 'refuse'])
+                blk = False
+            elif x < 0.70:
+                d = rng.random()
+                ops.append(['req', 'none' if d < 0.45 else 'future' if d < 0.85 else ['past', rc()]])
+            elif x < 0.78:
+                ops.append(['close'])
+                blk = False
+            elif x < 0.86:
+                ops.append(['look'])
+            elif x < 0.91:
+                ops.append(['open', 'ok' if rng.random() < 0.8 else 'refuse'])
+            elif x < 0.96:
+                ops.append(['io', rng.choice(['ok', 'raise', 'eof'])])
+            else:
+                ops.append(['timeout', rc()])
+            continue
         x = rng.random()
         if x < 0.25:
             d = rng.random()
-            dl = 'none' if d < 0.35 else 'future' if d < 0.85 else ['past', rng.choice(['ok', 'ok', 'refuse'])]
+            dl = 'none' if d < 0.35 else 'future' if d < 0.85 else ['past', rc()]
             ops.append(['req', dl])
+            blk = dl not in ('none', 'future') and dl[1] == 'block'
         elif x < 0.75:
             y = rng.random()
             if y < p_fault:
-                ops.append(rng.choice([['io', 'raise'], ['io', 'eof'], ['timeout', 'ok'], ['timeout', 'refuse']]))
+                ops.append(rng.choice([['io', 'raise'], ['io', 'eof'], ['timeout', rc()], ['timeout', rc()]]))
+                blk = ops[-1][1] == 'block'
             else:
                 ops.append(['io', 'ok'])
         elif x < 0.85:
@@ -741,7 +802,10 @@ def _gen_serial(rng, n):
         elif x < 0.90:
             ops.append(['close'])
         elif x < 0.95:
-            ops.append(['timeout', rng.choice(['ok', 'refuse'])])
+            ops.append(['timeout', rc()])
+            blk = ops[-1][1] == 'block'
+        elif x < 0.97:
+            ops.append(['reconn', rng.choice(['ok', 'refuse'])])
         else:
             ops.append(['look'])
     return {'t': 'serial', 'ops': ops}
@@ -889,8 +953,10 @@ def gen_script(rng, tier):
 # ------------------------------------------------------------------ exhaustive: fault position x kind x in flight
 def _serial_cases():
     """open, then up to three transactions; a fault at every I/O index (open, deadline check, write,
-    header read, body read) of transaction 1..3, of every kind; with and without a second request issued
-    while one is in flight; followed by a look, a recovery attempt and another transaction."""
+    header read, body read, re-connect of the time-out handler) of transaction 1..3, of every kind; with and
+    without a second request issued while one is in flight — also while the time-out handler is blocked in a
+    re-connect that takes time, which then is accepted, refused or cut short by Close(); followed by a look, a
+    recovery attempt and another transaction."""
     ok_txn = lambda dl: [['req', dl], ['io', 'ok'], ['io', 'ok'], ['io', 'ok']]
     tails = [
         [['look'], ['req', 'none'], ['io', 'ok'], ['io', 'ok'], ['io', 'ok'], ['look']],
@@ -909,6 +975,17 @@ def _serial_cases():
                 faults.append(pre[:1] + [['req', 'none']] + pre[1:] + [k])      # a rejected concurrent request
     faults.append([['req', ['past', 'ok']]])
     faults.append([['req', ['past', 'refuse']]])
+    # the re-connect of the time-out handler takes time: what arrives in that window (nothing, a look, a request
+    # of each kind, Open(), a stray I/O outcome / time-out that must find nothing to do) x how the window ends
+    window = [[], [['look']], [['req', 'none']], [['req', 'future']], [['req', ['past', 'ok']]],
+              [['req', ['past', 'block']]], [['req', 'none'], ['req', 'future']], [['open', 'ok']],
+              [['io', 'ok'], ['timeout', 'ok']]]
+    ends = [[['reconn', 'ok']], [['reconn', 'refuse']], [['close']], [['close'], ['reconn', 'ok']]]
+    for w in window:
+        for e in ends:
+            for pos in range(3):
+                faults.append([['req', 'future']] + [['io', 'ok']] * pos + [['timeout', 'block']] + w + e)
+            faults.append([['req', ['past', 'block']]] + w + e)
     for tail in tails:
         yield [['open', 'refuse']] + tail
         for done in range(3):
